@@ -198,14 +198,17 @@ def run(tier, seed, replay=None):
     slim = [{k: c[k] for k in ("cfg", "orig", "outcome", "corr", "conv")} for c in cases]
     fails, st = tlc_obs("ConvertObs", "ConvertObs.cfg", slim, chunk=4000, workers=8)
     bad = sorted({i for _, i in fails})
-    tagged = set()
+    lost, onerow = set(), set()
     st2 = {"states": 0, "generated": 0}
     if bad:
+        # feature classes of the failing cases, decided by TLC from the abstract configuration (ConvertTags.cfg)
         tf, st2 = tlc_obs("ConvertObs", "ConvertTags.cfg", [slim[i] for i in bad], workers=4)
-        tagged = {bad[k] for _, k in tf}          # cases where Tag_NothingLost fails, i.e. the route lost a needed field
+        lost = {bad[k] for n_, k in tf if n_ == "Tag_NothingLost"}          # the route lost a field the power flow needs
+        onerow = {bad[k] for n_, k in tf if n_ == "Tag_NoOneRowTable"}      # a one-row bus / branch table in the .mat file
     for name, i in fails:
         c = cases[i]
-        key = "C21|%s|route=%s|lost=%s" % (name, c["cfg"]["route"], "branch_g" if i in tagged else "none")
+        feat = "lost=branch_g" if i in lost else "onerow_table" if i in onerow else "none"
+        key = "C21|%s|route=%s|%s" % (name, c["cfg"]["route"], feat)
         if name == "C21_RoundTripCompletes":
             key += "|%s|%s" % (c["outcome"], c["err"].split(":")[0])
         v.violation(key, "%s: cfg=%s outcome=%s %s orig=%s conv=%s corr=%s" % (
